@@ -35,7 +35,7 @@ func init() {
 		Floor:         c16Floor,
 		MinNontrivial: 200,
 		Phases: []fw.Phase{
-			{Name: "inject", N: func(t fw.Tier) int { return pick(t, 20000, 2000000) }, Run: c16Run},
+			{Name: "inject", N: func(t fw.Tier) int { return pick(t, 60000, 2500000) }, Run: c16Run},
 		},
 		Witness: c16Witness,
 	})
